@@ -85,6 +85,10 @@ func parserGrammar() (*g4.Grammar, error) {
 
 // grammarVsParser: accepted by the grammar on disk <=> parsed without syntax error by the generated parser.
 func grammarVsParser(run *core.Run, g *g4.Grammar, txt string, origin string) {
+	run.Guard(&core.Case{Kind: "text", DSL: txt, Extra: map[string]string{"origin": origin}}, func() { grammarVsParser1(run, g, txt, origin) })
+}
+
+func grammarVsParser1(run *core.Run, g *g4.Grammar, txt string, origin string) {
 	tk, _ := lexNames(txt)
 	if len(tk) > 400 {
 		return // Earley is cubic; long inputs add nothing here
